@@ -40,6 +40,8 @@ FAMILIES = {
     'br.one': dict(module='MC_Bridge', fam='one', walker='bridge-walk', scale=U63,
                    invariants=['Inv_Solvency', 'Inv_Completeness', 'Inv_NoStuck', 'Inv_Holdings', 'Inv_DrainedOK'], properties=[],
                    failcap=dict(quick=1, thorough=2), timeout=dict(quick=420, thorough=3000)),
+    'br.live': dict(kind='liveness', module='MC_BridgeLive', spec='LiveSpec', temporal=['EventuallyDrained', 'SolvencyAlways'], invariants=[], properties=['EventuallyDrained', 'SolvencyAlways'],
+                    timeout=dict(quick=300, thorough=900)),
     # ---- L2 (x/opchild) -----------------------------------------------------------------------
     'l2.relay': dict(module='MC_L2', fam='relay', walker='l2-walk', scale=U63,
                      invariants=['Inv_Supply'], properties=['P_Relay', 'P_NoEffectOnReject'],
@@ -88,7 +90,7 @@ TRACES['l2'] = dict(driver='l2-drive', module='Trace_L2', mod='l2', runs=dict(qu
 TRACES['val'] = dict(driver='val-drive', module='Trace_Val', mod='val', runs=dict(quick=10, thorough=120), length=dict(quick=250, thorough=500), timeout=dict(quick=300, thorough=3000),
                      inv_tags=dict(Halted=['C13'], BatchRejectedByEngine=['C13'], IndexBijective=['C13'], Capacity=['C13'], EngineAgrees=['C13']))
 TRACES['br'] = dict(driver='bridge-drive', module='Trace_Bridge', mod='br', runs=dict(quick=9, thorough=90), length=dict(quick=200, thorough=400), timeout=dict(quick=400, thorough=3600),
-                    inv_tags=dict(Solvency=['C08'], Holdings=['C08'], NoStuckTransfer=['C04'], Completeness=['C04', 'C08']))
+                    inv_tags=dict(Solvency=['C08'], Holdings=['C08'], NoStuckTransfer=['C04'], Completeness=['C04', 'C08'], DrainedAfterCanonicalSchedule=['C08', 'C04']))
 
 # property -> engines.  `floor`: minimum counts below which the run is considered vacuous (exit 2).
 PROPERTIES = {
@@ -99,7 +101,7 @@ PROPERTIES = {
     'C05': dict(traces=['l1'], families=['l1.oracle', 'l1.window', 'l1.oracle-ind'], title='challenge window / finality'),
     'C06': dict(traces=['l2'], families=['l2.relay', 'l2.deposit'], title='L2 credits each deposit exactly once, in order'),
     'C07': dict(traces=['l2'], families=['l2.deposit'], title='deposit neither lost nor blocking; hooks contained'),
-    'C08': dict(traces=['br'], families=['br.one'], title='end-to-end solvency'),
+    'C08': dict(traces=['br'], families=['br.one', 'br.live'], title='end-to-end solvency'),
     'C09': dict(traces=['l2'], families=['l2.deposit'], title='L2 bridged supply conserved'),
     'C10': dict(traces=['l1'], families=['l1.ledger'], title='L1 deposit sequences / events'),
     'C11': dict(traces=['l1'], families=['l1.oracle', 'l1.ledger', 'l1.oracle-ind'], title='output oracle log structure'),
